@@ -461,3 +461,49 @@ class ImportanceSample(Contract):
         p.prove(z3.BoolVal(isinstance(r.f.get("log_w"), Arr)), f"{q}:C02:weights computed for the returned set")
         p.prove(z3.BoolVal(dtype_carried(r.f.get("dtype"), s.f["dtype"])), f"{q}:C15:population built with the precision requested from the sampler")
         p.prove(z3.BoolVal(r.f.get("parameters") is s.f["parameters"]), f"{q}:parameters of the sampler")
+
+
+class LogLikelihoodWrapper(Contract):
+    """C17: the counting wrapper around the user's likelihood"""
+    qual = "samplers.base:Sampler.log_likelihood"
+    properties = ("C17",)
+    raises = {"UserError": "raised by the user's likelihood"}
+    doc = ("the user's likelihood is called exactly once, with the very sample set the wrapper was given; the counter grows by len(samples) - the number of points "
+           "the likelihood was *asked* to evaluate - also when that call raises; the wrapper returns what the user's function returned")
+
+    def must_return(self, shape):
+        return not shape["raises"]
+
+    def shapes(self):
+        return [{"raises": 0}, {"raises": 1}]
+
+    def setup(self, I, shape):
+        s = mk_sampler_obj(I, "Sampler")
+        n = z3.Int("n_points")
+        I.path.assume(n >= 0)
+        x = base_arr("pts", "row", n)
+        smp = Obj("Samples", {"x": x, "log_prior": rowwise("PI", PI_ROW, x), "log_likelihood": NONE, "log_q": NONE})
+        if shape["raises"]:
+            inner = s.f["_log_likelihood"]
+
+            def failing(I2, a, k, nn, _f=inner):
+                I2.path.event("user_log_likelihood", a[0], a[0].f["x"])
+                raise RaiseSig("UserError", nn)
+            s.f["_log_likelihood"] = Fn(failing, "user_log_likelihood (raises)")
+        return Pre(s, [smp], ghost={"s": s, "smp": smp, "n": n, "evals0": s.f["n_likelihood_evaluations"], "shape": shape})
+
+    def _counted(self, I, pre, how):
+        p, g = I.path, pre.ghost
+        calls = [e for e in p.events if e[0] == "user_log_likelihood"]
+        p.prove(z3.BoolVal(len(calls) == 1 and calls[0][1] is g["smp"]), f"{self.qual}:C17:the user's likelihood is called exactly once, on the sample set given {how}")
+        p.prove(to_int(g["s"].f["n_likelihood_evaluations"]) == to_int(g["evals0"]) + g["n"],
+                f"{self.qual}:C17:the counter grows by the number of points the likelihood was asked to evaluate {how}")
+
+    def post(self, I, pre, r):
+        self._counted(I, pre, "[normal return]")
+        I.path.prove(z3.BoolVal(isinstance(r, Arr)), f"{self.qual}:C17:returns the user's values")
+
+    def post_raise(self, I, pre, sig):
+        if sig.exc != "UserError" or not pre.ghost["shape"]["raises"]:
+            return super().post_raise(I, pre, sig)
+        self._counted(I, pre, "[the user's likelihood raised]")
